@@ -221,8 +221,8 @@ func c08Variants(inv *CfgSpec) []*CfgSpec {
 			v := cloneCfgSpec(base)
 			v.TolPSL = sw&1 != 0
 			v.TolInsecure = sw&2 != 0
-			if base == inv && v.TolPSL == inv.TolPSL && v.TolInsecure == inv.TolInsecure {
-				continue
+			if base == inv && (sw != 0 || !inv.TolPSL && !inv.TolInsecure) {
+				continue // of the unrepaired configuration only the all-strict relative (if it differs)
 			}
 			out = append(out, v)
 		}
@@ -238,7 +238,7 @@ func TestVerif_C08(t *testing.T) {
 	r := newRun(t, "C08")
 	r.Rule("prior states: passthrough (zero value; Reconfigure(nil) after a configuration in debug mode) and accepted configurations (C02 product slice + C06 generator) reached by NewMiddleware, by Reconfigure on a zero value, or by one or three Reconfigure calls from another configuration, x debug off/on " +
 		"x invalid configurations from the C05 generator with 1..12 injected violation kinds, including ones invalid only in the first validated field (status), only in the last (ResponseHeaders), and ones whose valid fields differ from the current state in every aspect. " +
-		"and the prior configuration itself with its tolerate switches cleared. Observed before and after: answers to the union of both configurations' request suites, Config(), answers again after a no-op round trip, and the fate of up to 7 relatives of the rejected configuration (switches flipped, violations repaired) given to the same middleware afterwards: invalid ones rejected without effect, valid ones equal to a fresh middleware. evaluation = one (state, invalid config) pair; non-trivial = pair with a configured prior state, distinct by hash")
+		"and the prior configuration itself with its tolerate switches cleared. Observed before and after: answers to the union of both configurations' request suites, Config(), answers again after a no-op round trip, and the fate of up to 5 relatives of the rejected configuration (switches flipped, violations repaired) given to the same middleware afterwards: invalid ones rejected without effect, valid ones equal to a fresh middleware. evaluation = one (state, invalid config) pair; non-trivial = pair with a configured prior state, distinct by hash")
 	r.Assume("invalid configurations are invalid by construction (S4)")
 
 	var rc c08Case
